@@ -72,7 +72,7 @@ pub fn all() -> Vec<Prop> {
         Prop { id: "C11", gen: gen_c11, monitor: mon::c11, quick_level: QL_C11, thorough_level: TL_C11, bound_quick: None, bound_thorough: None, max_execs_quick: 50_000, max_execs_thorough: 1_000_000, features: "" },
         Prop { id: "C14", gen: gen_c14, monitor: mon::c14, quick_level: QL_C14, thorough_level: TL_C14, bound_quick: None, bound_thorough: None, max_execs_quick: 50_000, max_execs_thorough: 1_000_000, features: "f_deadlock" },
         Prop { id: "C15", gen: gen_c15, monitor: mon::c15, quick_level: QL_C15, thorough_level: TL_C15, bound_quick: None, bound_thorough: None, max_execs_quick: 50_000, max_execs_thorough: 1_000_000, features: "f_deadlock" },
-        Prop { id: "C20", gen: gen_c20, monitor: mon::c20, quick_level: QL_C20, thorough_level: TL_C20, bound_quick: Some(2), bound_thorough: None, max_execs_quick: 2_000, max_execs_thorough: 100_000, features: "f_metrics" },
+        Prop { id: "C20", gen: gen_c20, monitor: mon::c20, quick_level: QL_C20, thorough_level: TL_C20, bound_quick: Some(2), bound_thorough: Some(3), max_execs_quick: 2_000, max_execs_thorough: 20_000, features: "f_metrics" },
         Prop { id: "C18", gen: gen_c18, monitor: mon::none, quick_level: QL_C18, thorough_level: TL_C18, bound_quick: None, bound_thorough: None, max_execs_quick: 3_000, max_execs_thorough: 3_000, features: "" },
         Prop { id: "C12", gen: gen_c12, monitor: mon::c12, quick_level: QL_C12, thorough_level: TL_C12, bound_quick: None, bound_thorough: None, max_execs_quick: 10_000, max_execs_thorough: 200_000, features: "f_deadlock,f_metrics,f_testutils,f_tracing" },
         Prop { id: "C19", gen: gen_c19, monitor: mon::c19rt, quick_level: QL_C19, thorough_level: TL_C19, bound_quick: None, bound_thorough: None, max_execs_quick: 10_000, max_execs_thorough: 200_000, features: "" },
@@ -889,8 +889,8 @@ fn gen_c08(lvl: u8) -> Vec<Scenario> {
     }
     let seeds: Vec<u64> = if thorough { (0..8).collect() } else { (0..4).collect() };
     for (si, script) in scripts.iter().enumerate() {
-        for cap in [1usize, 2] {
-            for traffic in 0..4 {
+        for cap in if xl { vec![1usize, 2, 3] } else { vec![1usize, 2] } {
+            for traffic in 0..if xl { 6 } else { 4 } {
                 let seed = seeds[(si + cap + traffic) % seeds.len()];
                 let mut ids = Ids(0);
                 let mut a = ActorSpec::plain(cap);
@@ -906,9 +906,20 @@ fn gen_c08(lvl: u8) -> Vec<Scenario> {
                         Program::new(vec![(0, 0)], vec![send(SendKind::Tell, 0, quick(&mut ids)), Step::Sleep(10), send(SendKind::Tell, 0, quick(&mut ids))]),
                         Program::new(vec![(0, 0)], vec![Step::Kill(0)]),
                     ],
-                    _ => vec![
+                    3 => vec![
                         Program::new(vec![(0, 0)], vec![send(SendKind::Tell, 0, quick(&mut ids)), Step::Fuse, send(SendKind::Tell, 0, quick(&mut ids)), Step::Sleep(20), send(SendKind::Tell, 0, quick(&mut ids))]),
                         Program::new(vec![(0, 0)], vec![send(SendKind::Tell, 0, MsgSpec::m1(ids.next()).steps(vec![Step::Yield]))]),
+                    ],
+                    // three senders, one of them asking
+                    4 => vec![
+                        Program::new(vec![(0, 0)], vec![send(SendKind::Tell, 0, quick(&mut ids)), send(SendKind::Ask, 0, MsgSpec::m1(ids.next()))]),
+                        Program::new(vec![(0, 0)], vec![send(SendKind::Tell, 0, MsgSpec::m1(ids.next()).steps(vec![Step::Yield]))]),
+                        Program::new(vec![(0, 0)], vec![Step::Sleep(10), send(SendKind::Tell, 0, quick(&mut ids)), Step::DropH(0)]),
+                    ],
+                    // all references dropped while on_run is armed
+                    _ => vec![
+                        Program::new(vec![(0, 0)], vec![send(SendKind::Tell, 0, quick(&mut ids)), Step::DropH(0)]),
+                        Program::new(vec![(0, 0)], vec![Step::Sleep(10), send(SendKind::Tell, 0, MsgSpec::m1(ids.next())), Step::DropH(0)]),
                     ],
                 };
                 n += 1;
